@@ -18,7 +18,8 @@
 //
 // input line keys besides "h": "nw" (observer slots, for PollAll), "variant"
 // ("plain": stand-alone objects; "derived": Observable as a base class and the
-// Observer as a member, the two uses Observer.h describes).
+// Observer as a member, the two uses Observer.h describes; "mi": as "derived" but
+// the Observable is the SECOND base of a class with multiple inheritance).
 #pragma once
 #include <memory>
 #include <string>
@@ -38,6 +39,20 @@ struct Subject : public Observable
   ~Subject() override {}
 };
 
+// multiple inheritance: the Observable sub-object is not at offset 0 of the complete object
+struct OtherBase
+{
+  virtual ~OtherBase() {}
+  long words[3];
+  OtherBase() { words[0] = words[1] = words[2] = 7; }
+};
+struct SubjectMI : public OtherBase, public Observable
+{
+  std::vector<int> payload;
+  SubjectMI() : payload(3, 9) {}
+  ~SubjectMI() override {}
+};
+
 // the "member" use: something that holds an Observer
 struct Holder
 {
@@ -52,6 +67,7 @@ struct ObserversWorld
   static const int MAXS = 8;
   int nw{3};
   bool derived{false};
+  bool mi{false};
   Observable *subj[MAXS + 1];
   Observer *plainObs[MAXS + 1];
   Holder *holder[MAXS + 1];
@@ -61,7 +77,8 @@ struct ObserversWorld
     for (int i = 0; i <= MAXS; ++i) { subj[i] = nullptr; plainObs[i] = nullptr; holder[i] = nullptr; }
     if (hist.has("nw")) nw = (int)hist["nw"].num();
     if (nw > MAXS) nw = MAXS;
-    derived = hist.has("variant") && hist["variant"].str() == "derived";
+    mi = hist.has("variant") && hist["variant"].str() == "mi";
+    derived = mi || (hist.has("variant") && hist["variant"].str() == "derived");
   }
 
   bool watcherAlive(int b) const { return plainObs[b] != nullptr || holder[b] != nullptr; }
@@ -104,7 +121,8 @@ struct ObserversWorld
     if (a == "CreateObservable") {
       long long o = arg["o"].num();
       if (!slotOk(o) || subj[o]) return skipped();
-      subj[o] = derived ? new Subject() : new Observable();
+      if (mi) subj[o] = static_cast<Observable *>(new SubjectMI());   // pointer adjusted to the second base
+      else subj[o] = derived ? new Subject() : new Observable();
       out.set("ret", "void");
     } else if (a == "CreateObserver") {
       long long b = arg["b"].num(), o = arg["o"].num();
